@@ -15,7 +15,8 @@
    NP2Reconstructor._prepare_files (channel lists)        prepare_files
    NP2Reconstructor._reconstruct                          assign_cols, recon_window, reconstruct
    NP2Converter._writemetadata_ap                         meta_shank_ap
-   NP2Reconstructor.write_metadata                        meta_recon
+   NP2Reconstructor.write_metadata                        meta_recon, meta_recon_at (existing .meta)
+   _prepare_files_NP24 already_exists / overwrite          process_call
    (window generator: IBL.C17.Model.firstlast / nwin)
 *)
 From Coq Require Import ZArith NArith List Bool Lia Decimal DecimalN.
@@ -411,3 +412,24 @@ Definition meta_recon (m0 : meta) (nch fsize : Z) : option meta :=
           end
       end
   end.
+
+(* NP2Reconstructor.write_metadata, complete: if <probe>/<name>.ap.meta is already there (the original's
+   metadata was left in place, e.g. after delete_original) and its fileSizeBytes equals the size of the
+   reassembled binary, it is kept untouched; otherwise it is rewritten from shank0's metadata.
+   None = KeyError (no fileSizeBytes in the existing file) or an error of the rewrite. *)
+Definition meta_recon_at (existing : option meta) (m0 : meta) (nch fsize : Z) : option meta :=
+  match existing with
+  | None => meta_recon m0 nch fsize
+  | Some me =>
+      match mget K_fsize me with
+      | None => None
+      | Some (MInt z) => if z =? fsize then Some me else meta_recon m0 nch fsize
+      | Some _ => meta_recon m0 nch fsize
+      end
+  end.
+
+(* _prepare_files_NP24 / _process_NP24: a shank folder that exists blocks the run unless overwrite:
+   (status, true = the shank files are those of this call / false = the earlier files are left as they were) *)
+Definition process_call (existed overwrite : bool) : Z * bool :=
+  if existed && negb overwrite then (0, false) else (1, true).
+
